@@ -255,6 +255,12 @@ func c02Packet(b *mon.B, idx int, r *gen.R, bodyLen int) {
 		b.Violate(idx, "C02/roundtrip-differs/packet", "packet came back different", map[string]interface{}{"bytes": hexs(enc)})
 		return
 	}
+	// decode-first: what decoded without error re-encodes to the same bytes
+	re, err := d.MarshalBinary()
+	if err != nil || !bytes.Equal(re, enc) {
+		b.Violate(idx, "C02/decode-encode-differs/packet", fmt.Sprintf("a packet with %d body bytes decoded without error but the decoded value does not re-encode to the same bytes (error: %v)", bodyLen, err), map[string]interface{}{"bytes": hexs(enc)})
+		return
+	}
 	b.Count("roundtrips_identical", 1)
 }
 
